@@ -167,7 +167,7 @@ class Telomere:
 
         # Event log
         self._events: list[LifecycleEvent] = []
-        self._lock = threading.Lock()
+        self._lock = threading.RLock()
 
         self._log_event("created", {"max_operations": max_operations})
 
